@@ -16,7 +16,9 @@ TECHNIQUE = ("runtime monitoring: output-picture callback invariant (dimensions,
              "callback count) on conformant stream variants with extreme re-packed coefficients; independent framing reader")
 RULE = (
     "case = 1-2 configuration recipes (both profiles, pictures/fragments, all wavelet pairs, transform depths 0-3 x 0-3, 4:4:4/4:2:2/"
-    "4:2:0, frames/fields, 1-16 bit asymmetric luma/chroma depths, odd component sizes) + stream variations (30% of cases mix the "
+    "4:2:0, frames/fields, 1-16 bit asymmetric luma/chroma depths and, in 15% of recipes, 17-48 bit custom signal ranges with excursion "
+    "exactly 2^k-1 (k=29,31,39,47 favoured) or deep non-powers of two, odd component sizes; the output callback is registered as a plain "
+    "function or as a callable object whose truth value is False (empty list subclass, __bool__ False)) + stream variations (30% of cases mix the "
     "pictures of 2-3 sibling recipes with different slice counts/depths/wavelets/fragment sizes into one sequence), 90% with re-packed "
     "payloads biased to magnitude classes 2^20 and 2^40 and qindex 0 / maximum (127 LD, 255 HQ) so that both clip bounds are "
     "reached; distinct = distinct (recipes, variation, seed) hash; cases the encoder rejects are trivial"
@@ -26,6 +28,10 @@ ASSUMPTIONS = [
     "its own signature (variant-rejected) instead of being skipped",
     "expected component width/height/depth come from the recipe via vlib.gen.configs.dims_and_depths (11.6.2, 11.6.3), the "
     "picture of a sequence is matched to its recipe by the position of the sequence in the stream",
+    "the output callback is any callable registered in state['_output_picture_callback']; callable objects that evaluate as False "
+    "(an empty list subclass with __call__, an object with __bool__ False) are registered in half of the cases",
+    "signal ranges deeper than 16 bits are used with mid-grey input only (DESIGN section 7 item 5 keeps lossy rate control within "
+    "16 bits; mid-grey gives all-zero coefficients before re-packing, so every profile encodes it)",
     "'integer' is read as exactly the built-in int (type(x) is int): bool, numpy integers and floats are reported",
     "clip-bound hits are counted as samples equal to 0 and to 2^depth-1 per component; nothing is claimed about *which* samples "
     "must clip (that would need an independent inverse transform, which is C11/C05's subject)",
@@ -43,9 +49,70 @@ def plan(tier, seed):
     return [{"shard": i, "n": n // nsh} for i in range(nsh)]
 
 
+CALLBACK_KINDS = ("function", "function", "empty_list_subclass", "bool_false_object")
+
+
 def cases(spec, ctx):
     for i in range(spec["n"]):
-        yield streams.random_case(ctx.rng, emphasis=ctx.rng.choice(["clip", "clip", "clip", None]))
+        case = streams.random_case(ctx.rng, emphasis=ctx.rng.choice(["clip", "clip", "clip", None]), p_deep=0.15)
+        case["cb"] = ctx.rng.choice(CALLBACK_KINDS)
+        yield case
+
+
+class ListCollector(list):
+    """a callable that is also an (always empty, hence falsy) list: hands the pictures to another list"""
+
+    def __init__(self, sink):
+        list.__init__(self)
+        self.sink = sink
+
+    def __call__(self, picture, video_parameters, picture_coding_mode):
+        self.sink.append((picture, video_parameters, picture_coding_mode))
+
+
+class FalseCollector(object):
+    """a callable whose truth value is False"""
+
+    def __init__(self, sink):
+        self.sink = sink
+
+    def __bool__(self):
+        return False
+
+    def __call__(self, picture, video_parameters, picture_coding_mode):
+        self.sink.append((picture, video_parameters, picture_coding_mode))
+
+
+def validate(data, cb_kind):
+    """vc2util.validate with a chosen kind of registered callback object (pictures kept without copying)"""
+    import sys
+    import traceback
+    from io import BytesIO
+
+    from vc2_conformance.decoder import ConformanceError, init_io, parse_stream
+    from vc2_conformance.pseudocode.state import State
+
+    v = vc2util.Verdict()
+    sink = v.pictures
+    if cb_kind == "empty_list_subclass":
+        cb = ListCollector(sink)
+    elif cb_kind == "bool_false_object":
+        cb = FalseCollector(sink)
+    else:
+        def cb(picture, video_parameters, picture_coding_mode):
+            sink.append((picture, video_parameters, picture_coding_mode))
+    state = State(_output_picture_callback=cb)
+    v.state = state
+    init_io(state, BytesIO(data))
+    try:
+        parse_stream(state)
+        v.kind = "ok"
+    except ConformanceError as e:
+        v.kind, v.exc, v.exc_class, v.site = "ce", e, type(e).__name__, vc2util._site(sys.exc_info()[2])
+    except Exception as e:
+        v.kind, v.exc, v.exc_class, v.site = "crash", e, type(e).__name__, vc2util._site(sys.exc_info()[2])
+        v.tb = traceback.format_exc()[-3000:]
+    return v
 
 
 def coded_pictures(data):
@@ -88,7 +155,8 @@ def run_case(case, ctx):
     ctx.seen(key)
     data = v.data
     # pictures are fresh objects per callback (state["current_picture"] is re-created), no copy needed
-    verdict = vc2util.validate(data, keep_pictures=True, deepcopy_pictures=False)
+    cb_kind = case.get("cb", "function")
+    verdict = validate(data, cb_kind)
     if verdict.kind != "ok":
         ctx.violation("variant-rejected:%s" % verdict.exc_class,
                       "validator did not accept a conformant variant (%s at %s); applied=%s" % (verdict.exc_class, verdict.site, sorted(v.applied)),
@@ -102,12 +170,14 @@ def run_case(case, ctx):
         return
     out = verdict.pictures
     ctx.count("callbacks", len(out))
+    ctx.count("callbacks_via:" + cb_kind, len(out))
+    ctx.count("cases_via:" + cb_kind)
     ctx.count("picture_units", n_pic_units)
     ctx.count("fragmented_pictures", n_frag_pics)
     if len(out) != n_pic_units + n_frag_pics:
-        ctx.violation("callback-count:" + ("more" if len(out) > n_pic_units + n_frag_pics else "fewer"),
-                      "%d callbacks for %d picture units + %d completed fragmented pictures; applied=%s"
-                      % (len(out), n_pic_units, n_frag_pics, sorted(v.applied)))
+        ctx.violation("callback-count:" + ("more" if len(out) > n_pic_units + n_frag_pics else "fewer" if out else "none"),
+                      "%d callbacks for %d picture units + %d completed fragmented pictures (callback registered as %s); applied=%s"
+                      % (len(out), n_pic_units, n_frag_pics, cb_kind, sorted(v.applied)))
         return
     if len(coded) != len(v.seqs):
         ctx.violation("sequence-count", "framing finds %d sequences with pictures, generator emitted %d" % (len(coded), len(v.seqs)))
@@ -140,6 +210,16 @@ def run_case(case, ctx):
         ctx.note("wavelet_pairs", "%d/%d" % (recipe["wi"], recipe["wih"]))
         ctx.note("depth_pairs", "%d/%d" % (recipe["d"], recipe["dh"]))
         ctx.note("bit_depths", "%d/%d" % (dd["Y"][2], dd["C1"][2]))
+        if dd["Y"][2] > 16:
+            ctx.count("deep_sequences:luma")
+            ctx.count("deep_luma_bits:%d" % dd["Y"][2])
+            if recipe["range"][1] == (1 << dd["Y"][2]) - 1:
+                ctx.count("deep_luma_full_range_bits:%d" % dd["Y"][2])
+        if dd["C1"][2] > 16:
+            ctx.count("deep_sequences:chroma")
+            ctx.count("deep_chroma_bits:%d" % dd["C1"][2])
+            if recipe["range"][3] == (1 << dd["C1"][2]) - 1:
+                ctx.count("deep_chroma_full_range_bits:%d" % dd["C1"][2])
         ctx.note("luma_sizes", "%dx%d" % (dd["Y"][0], dd["Y"][1]))
         if dd["Y"][0] % 2 or dd["Y"][1] % 2 or dd["C1"][0] % 2 or dd["C1"][1] % 2:
             ctx.count("sequences_with_odd_component_size")
@@ -199,6 +279,11 @@ def check_picture(pic, coded_number, dd, strat, ctx):
         ctx.count("clip_high_hits:" + c, hi)
         if lo and hi:
             ctx.count("components_hitting_both_bounds:" + c)
+        if depth > 16:
+            ctx.count("deep_samples:" + ("luma" if c == "Y" else "chroma"), w * h)
+            ctx.count("deep_clip_low_hits:" + ("luma" if c == "Y" else "chroma"), lo)
+            ctx.count("deep_clip_high_hits:" + ("luma" if c == "Y" else "chroma"), hi)
+            ctx.count("deep_interior_samples:" + ("luma" if c == "Y" else "chroma"), w * h - lo - hi)
         if depth > 1:
             # at depth 1 every sample is a bound; keep a separate count where hitting a bound is informative
             ctx.count("clip_low_hits_depth>1:" + c, lo)
@@ -217,6 +302,8 @@ def evidence_extra(agg, tier):
             "at_0": c.get("clip_low_hits:" + comp, 0), "at_max": c.get("clip_high_hits:" + comp, 0),
             "at_0_depth>1": c.get("clip_low_hits_depth>1:" + comp, 0), "at_max_depth>1": c.get("clip_high_hits_depth>1:" + comp, 0),
             "components_with_both": c.get("components_hitting_both_bounds:" + comp, 0)}
+    out["deep_depths"] = {k: v for k, v in c.items() if k.startswith("deep_")}
+    out["callback_object_kinds"] = {k: v for k, v in c.items() if k.startswith("cases_via:") or k.startswith("callbacks_via:")}
     out["mixed_parameter_transitions"] = {k.split(":", 2)[2]: v for k, v in c.items() if k.startswith("gen:mixed:")}
     out["magnitude_classes"] = {k.split(":", 1)[1]: v for k, v in c.items() if k.startswith("variation:repack:")}
     return out
@@ -253,6 +340,18 @@ def floor(agg, tier):
                     ("d_up", 20), ("d_down", 20)):
         if c.get("gen:mixed:" + t, 0) < need * scale:
             miss.append("mixed-parameter transition %s seen %d times (< %d)" % (t, c.get("gen:mixed:" + t, 0), need * scale))
+    for comp in ("luma", "chroma"):
+        if c.get("deep_sequences:" + comp, 0) < 100 * scale:
+            miss.append("fewer than %d sequences with %s deeper than 16 bits (%d)" % (100 * scale, comp, c.get("deep_sequences:" + comp, 0)))
+        for k in (29, 31, 39, 47):
+            if c.get("deep_%s_full_range_bits:%d" % (comp, k), 0) < 5 * scale:
+                miss.append("fewer than %d sequences with %s excursion exactly 2^%d-1" % (5 * scale, comp, k))
+        for what in ("deep_clip_low_hits", "deep_clip_high_hits", "deep_interior_samples"):
+            if c.get("%s:%s" % (what, comp), 0) < 500 * scale:
+                miss.append("%s:%s %d < %d" % (what, comp, c.get("%s:%s" % (what, comp), 0), 500 * scale))
+    for kind in ("function", "empty_list_subclass", "bool_false_object"):
+        if c.get("cases_via:" + kind, 0) < 250 * scale or c.get("callbacks_via:" + kind, 0) < 400 * scale:
+            miss.append("callback registered as %s: %d cases, %d callbacks" % (kind, c.get("cases_via:" + kind, 0), c.get("callbacks_via:" + kind, 0)))
     for name in ("mixed_params", "repack:2^20", "repack:2^40", "repack:2000", "dangling", "npo_zero", "multi_seq", "pad_units", "rep_seq_header",
                  "scaler_raised", "ld_ylen:random"):
         if c.get("variation:" + name, 0) < 30 * scale:
